@@ -424,45 +424,7 @@ func c01CoversAll(r *an.Run) {
 	// compile side: the matcher compiled from v.<accessor>(j) is stored at dst[i], i runs over all of dst,
 	// len(dst) is the number of fields/elements of v, and i == j
 	compileLoop := func(rel, name, accessor, lenAtom string) {
-		f := fn(r, rel, name)
-		if f == nil {
-			return
-		}
-		found := false
-		for _, il := range loopsOf(f) {
-			for _, c := range callsInLoop(il.Loop) {
-				call, ok := c.(*ssa.Call)
-				if !ok || an.StaticCallee(call) == nil || !strings.HasSuffix(an.StaticCallee(call).Name(), "compile") || len(an.CallArgs(call)) < 2 {
-					continue
-				}
-				base, _, j, isElem := elemAccess(an.CallArgs(call)[1])
-				ac, isCall := an.CallArgs(call)[1].(*ssa.Call)
-				if !isElem || base != "v" || !isCall || !an.IsCallTo(ac, accessor) {
-					continue
-				}
-				// where is it stored?
-				for _, u := range *call.Referrers() {
-					st, ok := u.(*ssa.Store)
-					if !ok {
-						continue
-					}
-					ia, ok := st.Addr.(*ssa.IndexAddr)
-					if !ok {
-						continue
-					}
-					n := lengthOf(ia.X)
-					want := an.Affine{Terms: map[string]int64{lenAtom: 1}}
-					sameIdx := an.Lin(ia.Index).Sub(an.Lin(j)).IsZero()
-					covers := il.IndexMapsOnto(ia.Index, n) && n.Sub(want).IsZero()
-					msg := il.CoversAll(call, nil)
-					found = true
-					r.Check(sameIdx, short(f)+"|same-index", call.Pos(), "the matcher compiled from element j of the pattern value is stored at index j")
-					r.Check(covers && msg == "", short(f)+"|covers-all", call.Pos(), "all %s elements of the pattern value are compiled (index runs over 0..n-1 of a slice of length %s) %s", lenAtom, n.String(), msg)
-					r.Count("element loops", 1)
-				}
-			}
-		}
-		r.Check(found, short(f)+"|loop", f.Pos(), "%s compiles %s(v, i) in an index loop and stores the result at [i]", short(f), accessor)
+		compileLoopCovers(r, rel, name, accessor, lenAtom, "matcher")
 	}
 	compileLoop(engine, "matcherCompiler.compileStruct", rvField, "NumField(Type(v))")
 	compileLoop(engine, "matcherCompiler.compileSlice", rvIndex, "Len(v)")
@@ -498,7 +460,7 @@ func c01CoversAll(r *an.Run) {
 	matchLoop("StructMatcher.Match", "m.Fields", "got", zero)
 	matchLoop("SliceMatcher.Match", "m.Items", "got", zero)
 	matchLoop("matchPrefix", "want", "got", an.Affine{Terms: map[string]int64{"idx": 1}})
-	if f := fn(r, engine, "matchPrefix"); f != nil {
+	if f := funcAnywhere(r, engine, "matchPrefix"); f != nil {
 		c01LenGuardPrefix(r, f)
 	}
 	r.Min("element loops", 5)
@@ -1220,7 +1182,10 @@ func c01Containers(r *an.Run) {
 			}
 		}
 	}
-	// code: case type -> stmtField constant
+	// code: container type -> the constant that names its statements field, decided per path: the paths of
+	// the prologue (up to the first loop / the delegating call) are enumerated with one atom per tested
+	// type; on a path the candidate is the type whose atom is true, the field name is the string constant
+	// the name variable holds on that path, and a path on which every tested type is false must reject
 	code := map[string]string{}
 	isElemType := func(v ssa.Value) bool {
 		c, ok := v.(*ssa.Call)
@@ -1243,29 +1208,85 @@ func c01Containers(r *an.Run) {
 			}
 		}
 	}
-	for _, c := range an.EqCases(f, isElemType) {
-		g := an.GlobalLoaded(c.Key)
-		if g == nil {
-			continue
-		}
-		typ := gt[g.Name()]
-		field := ""
-		if phi != nil {
-			reach := an.Reach([]*ssa.BasicBlock{c.Target}, func(b *ssa.BasicBlock, i int) bool { return b == phi.Block() })
-			vals := map[string]bool{}
-			for i, pred := range phi.Block().Preds {
-				if reach[pred] {
-					s, _ := an.ConstString(phi.Edges[i])
-					vals[s] = true
+	classify := func(c ssa.Value) string {
+		cmp, ok := c.(*ssa.BinOp)
+		if !ok || cmp.Op != token.EQL {
+			if ok && cmp.Op == token.NEQ {
+				// handled by the caller through StripNot? (x != y) is not a negation in SSA: name it "not:"
+				if isElemType(cmp.X) {
+					if g := an.GlobalLoaded(cmp.Y); g != nil {
+						return "not:" + gt[g.Name()]
+					}
 				}
 			}
-			if len(vals) == 1 {
-				for s := range vals {
+			return ""
+		}
+		x, y := cmp.X, cmp.Y
+		if isElemType(y) {
+			x, y = y, x
+		}
+		if !isElemType(x) {
+			return ""
+		}
+		if g := an.GlobalLoaded(y); g != nil {
+			return "is:" + gt[g.Name()]
+		}
+		return ""
+	}
+	loopHeaders := map[*ssa.BasicBlock]bool{}
+	for _, l := range an.Loops(f) {
+		loopHeaders[l.Header] = true
+	}
+	kindTest := func(c ssa.Value) bool {
+		cmp, ok := c.(*ssa.BinOp)
+		return ok && (an.IsNamed(cmp.X.Type(), "reflect", "Kind") || an.IsNamed(cmp.Y.Type(), "reflect", "Kind"))
+	}
+	paths, perr := an.EnumeratePathsFrom(f.Blocks[0], func(c ssa.Value) string {
+		if kindTest(c) {
+			return "kind-is-ptr"
+		}
+		return classify(c)
+	}, func(b *ssa.BasicBlock) bool { return loopHeaders[b] }, 512, false)
+	okDefaultPaths := true
+	if perr != nil {
+		r.Undecided(short(f)+"|container-decision", f.Pos(), "cannot extract which types the container matcher accepts: %v", perr)
+	} else {
+		for _, p := range paths {
+			var yes []string
+			for a, v := range p.Atoms {
+				switch {
+				case strings.HasPrefix(a, "is:") && v:
+					yes = append(yes, strings.TrimPrefix(a, "is:"))
+				case strings.HasPrefix(a, "not:") && !v:
+					yes = append(yes, strings.TrimPrefix(a, "not:"))
+				}
+			}
+			if len(yes) > 1 {
+				continue // infeasible: the candidate has one type
+			}
+			rejects := an.ReturnsFailure(p.End)
+			if len(yes) == 0 {
+				if !rejects {
+					if kv, ok := p.Atoms["kind-is-ptr"]; !(ok && !kv) || !rejects {
+						okDefaultPaths = false
+					}
+				}
+				continue
+			}
+			if rejects {
+				continue // a tested type that is rejected: not a container for the code
+			}
+			field := ""
+			if phi != nil {
+				if s, ok := an.ConstString(p.ResolveOnPath(phi)); ok {
 					field = s
 				}
 			}
+			if prev, dup := code[yes[0]]; dup && prev != field {
+				field = prev + "|" + field
+			}
+			code[yes[0]] = field
 		}
-		code[typ] = field
 	}
 	for typ, field := range schema {
 		r.Check(code[typ] == field, short(f)+"|"+typ, f.Pos(), "go/ast struct %s holds statements in field %q; the container matcher handles it through field %q", typ, field, code[typ])
@@ -1277,28 +1298,7 @@ func c01Containers(r *an.Run) {
 	}
 	r.Count("statement containers", len(schema))
 	r.Min("statement containers", 3)
-	// the default arm rejects
-	idx, _ := an.VerdictIndex(f.Signature)
-	var edges []an.CtrlEdge
-	for _, c := range an.EqCases(f, isElemType) {
-		edges = append(edges, edgeTo(c.If.Block(), c.Target))
-	}
-	rets := an.PossiblyTrueReturns(f, idx)
-	skip := func(from *ssa.BasicBlock, succ int) bool {
-		for _, e := range edges {
-			if e.Block == from && e.Succ == succ {
-				return true
-			}
-		}
-		return false
-	}
-	reach := an.Reach([]*ssa.BasicBlock{f.Blocks[0]}, skip)
-	okDefault := true
-	for _, ret := range rets {
-		if reach[ret.Block()] {
-			okDefault = false
-		}
-	}
+	okDefault := okDefaultPaths && perr == nil
 	r.Check(okDefault, short(f)+"|default-rejects", f.Pos(), "a node that is none of the statement containers never matches a statement pattern")
 }
 
@@ -1319,11 +1319,23 @@ func c01SplitPatch(r *an.Run) {
 		r.Undecided(short(f)+"|both", f.Pos(), "splitPatch no longer builds an io.MultiWriter for context lines: writer selection cannot be decided")
 		return
 	}
+	// the two versions, by role: the locals the first / the second result are built from
+	minusRoot, plusRoot := splitVersionRoots(f)
+	if minusRoot == nil || plusRoot == nil {
+		r.Undecided(short(f)+"|versions", f.Pos(), "cannot identify the two buffers the results of splitPatch are built from")
+		return
+	}
+	splitRoots = [2]*ssa.Alloc{minusRoot, plusRoot}
 	// MultiWriter(&minus, &plus)
 	targets := map[string]bool{}
 	for v := range an.BackSlice(both, an.SliceOpts{ThroughCalls: true, ThroughMemory: true}) {
-		if a, ok := v.(*ssa.Alloc); ok && (a.Comment == "minus" || a.Comment == "plus") {
-			targets[a.Comment] = true
+		if a, ok := v.(*ssa.Alloc); ok {
+			switch a {
+			case minusRoot:
+				targets["minus"] = true
+			case plusRoot:
+				targets["plus"] = true
+			}
 		}
 	}
 	r.Check(targets["minus"] && targets["plus"], short(f)+"|both-writers", both.Pos(), "context lines are written to both the minus and the plus version")
@@ -1431,8 +1443,66 @@ func writerName(v ssa.Value, both *ssa.Call) string {
 	if v == ssa.Value(both) {
 		return "both"
 	}
-	if a, ok := v.(*ssa.Alloc); ok {
-		return a.Comment
+	switch rootAlloc(v) {
+	case nil:
+	case splitRoots[0]:
+		return "minus"
+	case splitRoots[1]:
+		return "plus"
 	}
 	return an.Describe(v)
+}
+
+// splitRoots: the locals of splitPatch that hold the '-' and the '+' version
+// (set by c01SplitPatch / c19LineMap before writerName is used).
+var splitRoots [2]*ssa.Alloc
+
+// compileLoopCovers: the matcher / replacer compiled from v.<accessor>(j) is
+// stored at dst[i], i runs over all of dst, len(dst) is the number of fields /
+// elements of v (lenAtom), and i == j. Index expressions and lengths are
+// compared in affine normal form, so `for i := 0; i < v.Len(); i++` and
+// `for i := range items` (items made with v.Len() elements) are the same loop.
+func compileLoopCovers(r *an.Run, rel, name, accessor, lenAtom, what string) int {
+	nFound := 0
+	f := fn(r, rel, name)
+	if f == nil {
+		return 0
+	}
+	found := false
+	for _, il := range loopsOf(f) {
+		for _, c := range callsInLoop(il.Loop) {
+			call, ok := c.(*ssa.Call)
+			if !ok || an.StaticCallee(call) == nil || !strings.HasSuffix(an.StaticCallee(call).Name(), "compile") || len(an.CallArgs(call)) < 2 {
+				continue
+			}
+			base, _, j, isElem := elemAccess(an.CallArgs(call)[1])
+			ac, isCall := an.CallArgs(call)[1].(*ssa.Call)
+			if !isElem || base != "v" || !isCall || !an.IsCallTo(ac, accessor) {
+				continue
+			}
+			// where is it stored?
+			for _, u := range *call.Referrers() {
+				st, ok := u.(*ssa.Store)
+				if !ok {
+					continue
+				}
+				ia, ok := st.Addr.(*ssa.IndexAddr)
+				if !ok {
+					continue
+				}
+				n := lengthOf(ia.X)
+				want := an.Affine{Terms: map[string]int64{lenAtom: 1}}
+				sameIdx := an.Lin(ia.Index).Sub(an.Lin(j)).IsZero()
+				covers := il.IndexMapsOnto(ia.Index, n) && n.Sub(want).IsZero()
+				msg := il.CoversAll(call, nil)
+				found = true
+				r.Check(sameIdx, short(f)+"|same-index", call.Pos(), "the "+what+" compiled from element j of the pattern value is stored at index j")
+				r.Check(covers && msg == "", short(f)+"|covers-all", call.Pos(), "all %s elements of the pattern value are compiled (index runs over 0..n-1 of a slice of length %s) %s", lenAtom, n.String(), msg)
+				r.Count("element loops", 1)
+				nFound++
+			}
+		}
+	}
+	r.Check(found, short(f)+"|loop", f.Pos(), "%s compiles %s(v, i) in an index loop and stores the result at [i]", short(f), accessor)
+	return nFound
 }
